@@ -226,7 +226,7 @@ class Scen:
 
 def build(r, raw, kinds=None, quick=True):
     s = Scen(r, raw)
-    k = r.choice(kinds or ['tcp', 'udp', 'unicast', 'broadcast', 'dnshost', 'icmp', 'datagram', 'frag', 'tunnel', 'sized'])
+    k = r.choice(kinds or ['tcp', 'udp', 'unicast', 'broadcast', 'dnshost', 'icmp', 'datagram', 'frag', 'tunnel', 'sized', 'tunbc'])
     if k == 'tcp': s.tcp(2 + r.below(6))
     elif k == 'udp': s.udp(1 + r.below(4))
     elif k == 'unicast': s.unicast(); s.unicast()
@@ -235,6 +235,12 @@ def build(r, raw, kinds=None, quick=True):
     elif k == 'icmp': s.icmp(2 + r.below(5))
     elif k == 'datagram': s.datagram(); s.datagram()
     elif k == 'frag': s.frag(big=r.choice([8192, 8200, 16385, 65000]) if r.chance(1, 5) else None)
+    elif k == 'tunbc':
+        # link-layer broadcast / multicast traffic carried inside each kind of tunnel: the OUTER header still belongs to the tunnel end points
+        for kind in ['vxlan', 'gre', 'erspan1', 'erspan2']:
+            w = s.tunnel_wrap(kind)
+            s.broadcast(None, wrap=w)
+            if r.chance(1, 2): s.unicast(wrap=w)
     elif k == 'sized': s.sized(r.choice([28, 29, 1500, 65535, 65534, 32768] if not quick else [28, 29, 1500, 9000, 65535]))
     else:
         w = s.tunnel_wrap(r.choice(['vxlan', 'gre', 'erspan1', 'erspan2']))
